@@ -106,6 +106,10 @@ class AccessMonitor:
                 return                     # not caused by interpreter code (harness, import system)
             sp = str(path)
             write = mode is not None and any(c in str(mode) for c in "wax+")
+            if getattr(self, "constructing", False) and not write and "/ckl/modules/" in sp.replace(os.sep, "/"):
+                # the interpreter reading its own bundled modules while it is being built
+                self.counts["allowed"] += 1
+                return
             if req and not write and (not self.in_canary(path) or sp.endswith(".ckl")):
                 # module source read by require: bundled module, ~/.ckl/modules or the module path
                 self.counts["allowed"] += 1
